@@ -1285,3 +1285,18 @@ package mcp
 //@   assert at call ss.onClose: @hook-runs-after-the-connection-is-closed calls(closeConn) == 1
 //@   assert at call CompareAndSwap: @claims-the-false-to-true-transition !$1 && $2
 //@   loop 1: invariant @connection-still-there ss.conn == old(ss.conn) && calls(closeConn) == 0
+
+// Client.discover (C07): the version the client settles on after server/discover is one the server listed, at least
+// 2026-07-28, and it is the requested version whenever the server lists that one; otherwise the call fails with the
+// unsupported-protocol-version error (so Connect falls back to initialize).
+//@ func (*Client).discover [C07]
+//@   track handleSend as send
+//@   track protocolVersionFromContext as wantedVersion
+//@   snapshot answered after call handleSend
+//@   ghost offered := at(answered, callResult(send, 1, 0).SupportedVersions)
+//@   ghost wanted := callResult(wantedVersion, 1, 0)
+//@   requires c != nil
+//@   modifies *
+//@   ensures @settled-version-is-offered-and-modern result.1 == nil ==> result.0 != nil && at(answered, has(offered, now(result.0.ProtocolVersion))) && !legacy(result.0.ProtocolVersion)
+//@   ensures @requested-version-wins-when-offered result.1 == nil && at(answered, has(offered, wanted)) ==> result.0.ProtocolVersion == wanted
+//@   ensures @otherwise-an-sdk-version result.1 == nil && !at(answered, has(offered, wanted)) ==> sdkSupports(result.0.ProtocolVersion)
